@@ -420,6 +420,7 @@ impl Property for C09 {
             find.starts_via_file = false;
             find.outcomes.retain(|o| matches!(o, Outcome::Exit(_) | Outcome::Signal(..)));
             find.ambient.stdout_tty = false;
+            find.ambient.stdout_closed_pipe = false;
         }
         let mut sc = Sc {
             find,
